@@ -151,6 +151,49 @@ func runC04(p *core.Prog, r *core.Report, tier string) {
 	r.Hold("C04.g", "duty-arrays-read-only", "", fmt.Sprintf("%d appends examined in the attester: none grows a slice of a duty array, and no element of a duty array is stored to", nG))
 	r.Floor("C04.g appends examined", nG, 4)
 
+	// (h) the parallel arrays of a duty keep the order they were built in: outside the constructor nothing sorts,
+	// shuffles, overwrites or copies into an array of an attester duty, neither through the duty's own fields nor
+	// through what its getters hand out (reordering one array alone breaks the validator/committee/position pairing)
+	nSrc, nMutH := 0, 0
+	for _, f := range p.SrcFuncs() {
+		top := f
+		for top.Parent() != nil {
+			top = top.Parent()
+		}
+		if top.Name() == "NewDuty" {
+			continue
+		}
+		isSrc := func(v ssa.Value) bool {
+			if !isCollection(v.Type()) {
+				return false
+			}
+			if g, ok := dutyGetterResult(v); ok && strings.HasSuffix(typeName(g.Signature.Recv().Type()), "attester.Duty") {
+				return true
+			}
+			if ld, ok := v.(*ssa.UnOp); ok {
+				if fa, ok := ld.X.(*ssa.FieldAddr); ok {
+					if id, _, ok := core.FieldOfAddr(fa); ok && strings.HasSuffix(id.Owner, "services/attester.Duty") {
+						return true
+					}
+				}
+			}
+			return false
+		}
+		core.EachInstr(f, func(in ssa.Instruction) {
+			if v, ok := in.(ssa.Value); ok && isSrc(v) {
+				nSrc++
+			}
+		})
+		for _, m := range collectionMutations(f, isSrc) {
+			nMutH++
+			r.Violate("C04.h", fmt.Sprintf("%s|reorders-duty-array#%d", core.FnKey(f), nMutH), p.Pos(m.Pos()), "an array of an attester duty is changed in place after the duty was built (sorted, shuffled, overwritten or copied into): the positions of validatorIndices, committeeIndices and validatorCommitteeIndices no longer describe the same validator, so an attestation is signed and submitted for one validator with another's committee and position")
+		}
+	}
+	if nMutH == 0 {
+		r.Hold("C04.h", "duty-arrays-keep-their-order", "", fmt.Sprintf("none of the %d reads of an attester duty's arrays leads to an in-place change", nSrc))
+	}
+	r.Floor("C04.h reads of attester duty arrays", nSrc, 10)
+
 	// (f) what is signed is what is submitted: the sign call and the constructor call in the same function share argument values
 	for _, f := range p.FuncsIn(attRel) {
 		signs := core.CallsNamed(f, "SignBeaconAttestations")
